@@ -144,7 +144,7 @@ func loadProgram(repo string, spec *CheckSpec, overlay map[string][]byte) (*Prog
 var initAllow = map[string]bool{
 	"io": true, "bufio": true, "bytes": true, "strings": true, "strconv": true,
 	"unicode/utf8": true, "math/bits": true, "slices": true, "cmp": true, "sort": true, "math": true,
-	"maps": true, "iter": true, "internal/itoa": true, "internal/stringslite": true, "time": true,
+	"maps": true, "iter": true, "internal/itoa": true, "internal/stringslite": true, "time": true, "encoding/binary": true,
 }
 
 // zero-valued globals of packages whose init is not run; in addition every
